@@ -11,7 +11,6 @@ var notApplicable = map[string]string{
 	"C28": "Reflection API contract: a stateful abstract-model conformance over operation histories and runtime values; no structural clause short of re-specifying fieldInfo semantics per kind, which static analysis cannot decide soundly.",
 	"C35": "Panic-freedom and rejection-completeness of descriptor validation over adversarial protos needs whole-program nil/index reasoning and a completeness argument about validators; beyond any sound static rule in reach.",
 	"C41": "Requires running the generator and the Go compiler on new schemas; not decidable from the source without execution.",
-	"C45": "Recursive value conversions and registry lookups at run time; value-level behaviour only.",
 }
 
 // planned: properties whose rules are designed (DESIGN.md §4) but not yet built.
